@@ -18,6 +18,7 @@ import (
 	"context"
 	"errors"
 	"fmt"
+	"slices"
 
 	"deps.dev/util/resolve/version"
 )
@@ -151,6 +152,8 @@ func (lc *LocalClient) MatchingVersions(ctx context.Context, vk VersionKey) ([]V
 	if !ok {
 		return nil, fmt.Errorf("version: %v: %w", vk, ErrNotFound)
 	}
-	ms := MatchRequirement(vk, vs)
+	// MatchRequirement may reorder the list it is given: hand it a copy, so
+	// that concurrent calls do not write to the client's own slice.
+	ms := MatchRequirement(vk, slices.Clone(vs))
 	return ms, nil
 }
